@@ -93,6 +93,7 @@ def run(sc):
   sparse = bool(m.is_sparse)
   dense_newton = (not sparse) and sc["model"]["opt"].get("solver", "newton") == "newton"
   quick = sc.get("tier", "quick") != "thorough"
+  rk4 = int(mjm.opt.integrator) == 1  # mjINT_RK4
   seams.set_alloc("ZERO")
   R = core.make_data(mjm, m, {"nworld": nworld, "how": "make", "caps": ample, "init": sc["init"]})
   cr = core.Ctx(mjm, m, R)
@@ -148,7 +149,9 @@ def run(sc):
         core.set_istate(mjm, m, D, S)
         core.clear_overflow(D)
         permuted = False
-        if sc["sched_p"] and rv.random() < sc["sched_p"]:
+        # RK4 re-evaluates forward() at states that depend on the solver output of the previous stage: under another task order the
+        # later stages (and their need) legitimately drift, so the ascending ample run is no reference for a permuted RK4 step
+        if sc["sched_p"] and rv.random() < sc["sched_p"] and not rk4:
           seams.set_policy(seams.policy_from_spec({"default": ["PERM", int(rv.integers(1 << 40))]}))
           seams.reset_counters()
           permuted = True
@@ -195,7 +198,12 @@ def run(sc):
             continue
           if not permuted:
             a, b = core.canon_view(got, w), refv[w]
-          skip = set(SKIP) | (PRE_SOLVER_SKIP if lim else set())
+          # a permuted step differs from the ascending reference by the re-association round-off that C11 bounds, amplified by the
+          # solver (order of rows): only what is a function of the probe state alone (counts, contacts, rows, Jacobian, smooth
+          # dynamics) is attributed to the capacity here; solver-level fields are compared under the ascending order only
+          skip = set(SKIP) | (PRE_SOLVER_SKIP if (lim or permuted) else set())
+          if permuted:
+            stats["skipped"]["solver_fields_not_compared_under_permuted_schedule"] = stats["skipped"].get("solver_fields_not_compared_under_permuted_schedule", 0) + 1
           bad = core.tol_diff(a, b, core.STATE_LEVEL, skip=skip, exact_int=EXACT_INT, stats=stats, tag="clause2")
           if bad:
             f, info = bad[0]
